@@ -103,7 +103,7 @@ def build_case(data):
     """tape -> case (pure function of the bytes)"""
     t = Tape(data)
     sysm = t.pick(['en', 'en', 'ja'])
-    mc = gen_cat.t_cat(t, sysm, depth=3, bar=True)
+    mc = gen_cat.t_cat(t, sysm, depth=3, bar=True, exotic=True)
     kind = t.pick(['mut', 'mut', 'copy', 'rand', 'cross', 'refeat'])
     sys_d = sysm
     if kind == 'mut':
@@ -117,7 +117,7 @@ def build_case(data):
     elif kind == 'refeat':
         md = gen_cat.t_refeature(t, mc, sysm, 100)
     else:
-        md = gen_cat.t_cat(t, sysm, depth=3, bar=True)
+        md = gen_cat.t_cat(t, sysm, depth=3, bar=True, exotic=True)
     # third value: feature-only variant of d (exercises ^ chains) or something else
     ek = t.below(4)
     if ek == 0:
@@ -197,7 +197,7 @@ def _sweep(ctx, shard, nshards, system, max_slashes):
 def _shard(ctx, shard, nshards):
     for system in ('en', 'ja'):
         _sweep(ctx, shard, nshards, system, 1)
-    _hyp(ctx, shard, ctx.scale(2500, 12000))
+    _hyp(ctx, shard, ctx.scale(6000, 20000))
 
 
 def run(ctx):
